@@ -1104,8 +1104,15 @@ impl<Octs: Octets> TerminationMessage<Octs> {
         CommonHeader::<Octs>::check(&mut parser)?;
 
         while parser.remaining() > 0 {
-            parser.advance(2)?; // type u16
+            let info_type = parser.parse_u16_be()?;
             let info_len = parser.parse_u16_be()?;
+            // Everything but the free-form string (type 0) carries a
+            // two-octet reason code.
+            if info_type != 0 && info_len != 2 {
+                return Err(ParseError::form_error(
+                    "invalid length of Termination reason TLV"
+                ));
+            }
             parser.advance(info_len.into())?;
         }
 
@@ -1471,7 +1478,7 @@ impl<'a> InformationIter<'a> {
                 &self.octets[self.pos+4..self.pos+4+len as usize]
                 )
                 .into_owned();
-            self.pos += len as usize;
+            self.pos += 4 + len as usize;
             return TerminationInformation::CustomString(s)
         }
         let val = u16::from_be_bytes(self.octets[self.pos+4..self.pos+4+len as usize].try_into().unwrap());
